@@ -550,6 +550,10 @@ def run(rep: Report, repo: Repo, tier: str) -> None:
                               "exit() on an error path with status 0 / without status")
     rep.floor("C06-R7", 1, "exit calls")
 
+    # ---- R10: nothing discards an exception in flight
+    from . import misc_rules
+    misc_rules.rule_no_finally_discard(rep, repo, "C06-R10")
+
 
 def _at_module_level(n, mm) -> bool:
     p = mm.parents.get(n)
